@@ -403,13 +403,27 @@ func (c *Ctx) ruleRadix16(cfg string) {
 	}
 	in := absint.New(p, d)
 	sc := absint.Ptr{Obj: in.NewObject("s", p.Root.Members["Scalar"].Type(), nil)}
-	out := in.Run(f, []absint.Val{sc})
+	callArgs := []absint.Val{sc}
+	var outArr *absint.Object
+	if len(f.Params) == 2 {
+		// the digits are delivered through an out-parameter (*[64]int8) instead of being returned
+		if pt, ok := f.Params[1].Type().Underlying().(*types.Pointer); ok {
+			outArr = in.NewObject("digits", pt.Elem(), nil)
+			callArgs = append(callArgs, absint.Ptr{Obj: outArr})
+		}
+	}
+	out := in.Run(f, callArgs)
 	if out.Kind != absint.ExitReturn {
 		o.Detail = out.Undecided + out.PanicMsg
 		c.Set.Add(o)
 		return
 	}
-	digits, _ := out.Results[0].(*absint.Agg)
+	var digits *absint.Agg
+	if outArr != nil {
+		digits, _ = outArr.Val.(*absint.Agg)
+	} else if len(out.Results) > 0 {
+		digits, _ = out.Results[0].(*absint.Agg)
+	}
 	if digits == nil || len(digits.Elems) != 64 {
 		o.Detail = "result is not [64]int8"
 		c.Set.Add(o)
